@@ -457,6 +457,56 @@ def r03h(ctx):
         raise AnalysisError("R03h: no path uses found in Document.get_part/set_part/del_part")
 
 
+def r03i(ctx):
+    """Reading a part never replaces what was put in memory.
+
+    The part table holds what will be saved.  `get_part` may fill a missing entry from the package, and for a folder it may refresh an entry
+    that it loaded itself when the file changed on disk (it records the file's timestamp when it loads).  An entry written by `set_part`
+    has no such record: overwriting it from disk silently discards the edit, and save() — which goes through get_part — writes the old
+    bytes.  Rule: in Container.get_part every store into the part table on a path where the entry already exists is guarded by the
+    membership of the path in the timestamp table (i.e. by evidence that the entry came from disk).
+    """
+    repo = ctx.repo
+    ctx.rule("R03i", "Container.get_part overwrites an existing entry of the part table only if it loaded that entry from disk itself", floor=2)
+    f = repo.func("Container.get_part")
+    sp = repo.func("Container.set_part")
+    table = {t.value.attr for a in walk_no_nested(sp.node) if isinstance(a, ast.Assign) for t in a.targets if isinstance(t, ast.Subscript) and isinstance(t.value, ast.Attribute)}
+    if len(table) != 1:
+        raise AnalysisError("R03i: part table attribute not identified from Container.set_part")
+    tbl = next(iter(table))
+    stores = [a for a in walk_no_nested(f.node) if isinstance(a, ast.Assign) and any(isinstance(t, ast.Subscript) and isinstance(t.value, ast.Attribute) and t.value.attr == tbl for t in a.targets)]
+    if not stores:
+        raise AnalysisError("R03i: no store into the part table in Container.get_part")
+    # the timestamp table: the other self.<attr>[path] stored next to the part table in this function
+    ts = {t.value.attr for a in walk_no_nested(f.node) if isinstance(a, ast.Assign) for t in a.targets
+          if isinstance(t, ast.Subscript) and isinstance(t.value, ast.Attribute) and t.value.attr != tbl and isinstance(t.value.value, ast.Name) and t.value.value.id == "self"}
+
+    def member(t, attr):
+        return isinstance(t, ast.Compare) and len(t.ops) == 1 and isinstance(t.ops[0], (ast.In, ast.NotIn)) and isinstance(t.comparators[0], ast.Attribute) and t.comparators[0].attr == attr
+
+    def holds(t, pol, attr):
+        """does guard (t, pol) establish `path in self.<attr>`"""
+        if isinstance(t, ast.BoolOp) and isinstance(t.op, ast.And) and pol:
+            return any(holds(v, True, attr) for v in t.values)
+        if isinstance(t, ast.BoolOp) and isinstance(t.op, ast.Or) and not pol:
+            return any(holds(v, False, attr) for v in t.values)
+        if member(t, attr):
+            return pol == isinstance(t.ops[0], ast.In)
+        return False
+
+    for a in stores:
+        gs = structural_guards(a, stop=f.node)
+        existing = any(holds(t, pol, tbl) for t, pol in gs)
+        from_disk = any(holds(t, pol, x) for t, pol in gs for x in ts)
+        ok = (not existing) or from_disk
+        ctx.instance("R03i", f"{f.file}:{f.ident}", f"{norm(a, 40)}: " + ("fills a missing entry" if not existing else "refreshes an entry it loaded itself" if from_disk else "overwrites an entry of unknown origin"),
+                     ok=ok, nontrivial=True, line=a.lineno)
+        if not ok:
+            ctx.report("R03i", f, a, norm(a, 60),
+                       "Container.get_part replaces an entry that is already in the part table without evidence that it was loaded from disk (no `path in <timestamps>` in force): "
+                       "a part written with set_part() before it was ever read is overwritten by the old bytes of the folder, and the following save() writes those")
+
+
 def run(ctx):
     r03a(ctx)
     r03b(ctx)
@@ -466,6 +516,12 @@ def run(ctx):
     r03f(ctx)
     r03g(ctx)
     r03h(ctx)
+    r03i(ctx)
+    # "reopen" is half of the property: a parser that drops blank text, comments or PIs loses content on the way back (rule shared with C11)
+    from .c11 import r11de, r11h
+    r11h(ctx)
+    # an indented save writes what the indenter leaves: every mixed-content element must be in its table, or text next to inline children is overwritten (shared with C11)
+    r11de(ctx)
 
 
 from ..selftest import Seed, unparse_seed  # noqa: E402
@@ -473,11 +529,16 @@ from ..selftest import Seed, unparse_seed  # noqa: E402
 _CT = "src/odfdo/container.py"
 _DOC = "src/odfdo/document.py"
 SEEDS = [
+    Seed("get_part reloads every folder part whose timestamp is not the recorded one, recorded or not", "fault", _CT,
+         "            if self.__packaging == FOLDER and path in self.__parts_ts:\n                # only a part that was loaded from the folder can be stale\n                cache_ts = self.__parts_ts[path]",
+         "            if self.__packaging == FOLDER:\n                cache_ts = self.__parts_ts.get(path, -1)", "R03i"),
+    Seed("get_part tests the record first", "neutral", _CT,
+         "            if self.__packaging == FOLDER and path in self.__parts_ts:", "            if path in self.__parts_ts and self.__packaging == FOLDER:"),
     Seed("XmlPart.serialize writes the root element only", "fault", "src/odfdo/xmlpart.py",
          '        tree = self._get_tree()\n        bytes_tree = tostring(tree, encoding="unicode").encode("utf8")', '        root = self._get_tree().getroot()\n        bytes_tree = tostring(root, encoding="unicode").encode("utf8")', "R03e"),
     Seed("Document.set_part looks the class up before translating the shortcut", "fault", _DOC,
-         "        path = path.lstrip(\"./\")\n        path = _get_part_path(path)\n        cls = _get_part_class(path)\n",
-         "        path = path.lstrip(\"./\")\n        cls = _get_part_class(path)\n        path = _get_part_path(path)\n", "R03h"),
+         "        path = path.lstrip(\"./\")\n        path = _get_part_path(path)\n        cls = _get_part_class(path)\n        # XML part overwritten\n",
+         "        path = path.lstrip(\"./\")\n        cls = _get_part_class(path)\n        path = _get_part_path(path)\n        # XML part overwritten\n", "R03h"),
     Seed("zip save rewinds a reused buffer", "fault", _CT,
          "        if isinstance(target, (str, Path)) and backup:\n            self._do_backup(target)\n        self._save_zip(target)",
          "        if isinstance(target, (str, Path)):\n            if backup:\n                self._do_backup(target)\n        elif target.seekable():\n            target.seek(0)\n        self._save_zip(target)", "R03g"),
